@@ -16,6 +16,7 @@ import (
 	"github.com/a14e/gogreement/src/constructor"
 	"github.com/a14e/gogreement/src/ignore"
 	"github.com/a14e/gogreement/src/immutable"
+	"github.com/a14e/gogreement/src/implements"
 	"github.com/a14e/gogreement/src/packageonly"
 	"github.com/a14e/gogreement/src/testonly"
 	"github.com/a14e/gogreement/src/util"
@@ -125,6 +126,17 @@ func analyze(prog *nd.Prog, cfg *config.Config, pkg string, facts Facts, withSrc
 		case "pkgo":
 			v := packageonly.CheckPackageOnly(cfg, pass, &ann, ign)
 			packageonly.ReportViolations(pass, v)
+		case "impl":
+			// as analyzer.runImplementsChecker
+			if len(ann.ImplementsAnnotations) == 0 {
+				break
+			}
+			interfaces := implements.LoadInterfaces(pass, ann.ToInterfaceQuery())
+			tys := implements.LoadTypes(pass, ann.ToTypeQuery())
+			mp := implements.FindMissingPackages(ann.ImplementsAnnotations)
+			mi := implements.FindMissingInterfaces(ann.ImplementsAnnotations, interfaces)
+			mm := implements.FindMissingMethods(ann.ImplementsAnnotations, interfaces, tys)
+			implements.ReportProblems(pass, mp, mi, mm, ign)
 		}
 	}
 	res := Result{Ann: ann, Ignore: ign}
